@@ -642,3 +642,53 @@ class GetCartesian:
 
     def raises(c, exc, self, data, _L):
         return None
+
+
+# ---------------------------------------------------------------------------------------------------
+# get_location_of: the polygons of the given cell numbers, in the order asked for
+# ---------------------------------------------------------------------------------------------------
+def location_case(cls_name):
+    from pyvc.core import SymList, Opaque
+
+    class GL:
+        qualname = 'csep.core.regions.%s.get_location_of' % cls_name
+        case = 'any number of cell numbers, all in range'
+        properties = ('C01',) if cls_name == 'CartesianGrid2D' else ('C17',)
+
+        def params(c):
+            N, m = c.int('n_cells'), c.int('n_asked')
+            c.ctx.assume(z3.And(N >= 1, m >= 0))
+            IDX = c.ctx.fresh_fun('asked', z3.IntSort(), z3.IntSort())
+            POLY = z3.Function('polygon_of_cell', z3.IntSort(), z3.IntSort())
+            polys = SymList(N, lambda i: Opaque('polygon', key=POLY(to_z3(i))), 'polygons')
+            indices = SymList(m, lambda k: IDX(to_z3(k)), 'indices')
+            me = c.obj('csep.core.regions.%s' % cls_name, polygons=polys)
+            return dict(self=me, indices=indices, _N=N, _m=m, _IDX=IDX, _POLY=POLY)
+
+        def requires(c, self, indices, _N, _m, _IDX, _POLY):
+            k = z3.Int('k!rq')
+            return [z3.ForAll([k], z3.Implies(z3.And(0 <= k, k < _m), z3.And(0 <= _IDX(k), _IDX(k) < _N)), patterns=[_IDX(k)])]
+
+        def ensures(c, r, self, indices, _N, _m, _IDX, _POLY):
+            ok = isinstance(r, SymList)
+            yield 'returns a list', z3.BoolVal(ok or (isinstance(r, list) and not r))
+            if ok:
+                yield 'one polygon per cell number asked for', to_z3(r.n) == _m
+                k = c.ctx.fresh_int('k!sk')
+                # (the entry is evaluated for an index in range only: the case split on the fresh k is part of the proof)
+                if c.ctx.branch(z3.And(0 <= k, k < _m)):
+                    p = r.f(k)
+                    yield 'entry k is the polygon of cell indices[k] (the order asked for, repetitions kept)', \
+                        p.key == _POLY(_IDX(k)) if isinstance(p, Opaque) and p.name == 'polygon' else z3.BoolVal(False)
+            else:
+                yield 'no polygon only if none was asked for', _m == 0
+
+        def raises(c, exc, **kw):
+            return None
+    GL.__name__ = 'GetLocationOf_' + cls_name
+    return GL
+
+
+from pyvc.contracts import REG as _REG_LOC      # noqa: E402
+for _cn in ('CartesianGrid2D', 'QuadtreeGrid2D'):
+    _REG_LOC.add(location_case(_cn))
